@@ -10,6 +10,7 @@ Line-protocol driver for C19 (group chain). One op per line:
   rmto <h>                           removeFromCommonAncestor(GroupHeight = h)
   restart                            drop memory, run start-up on the store
   crash <k> add …|rmlast|rmto <h>    the op with only k physical writes let through, then restart
+  forkput <key>                      Put(key, 0x01) on the store with prefix "groupFork" (shared key space)
   cadd <id> <pre> <parent> <create>  AddGroup that ran concurrently with another one (answer: result only)
   count | last | byheight <i> | byid <x> | iter | sync <x> | syncat <h> <n> | dump | mirror
 
@@ -226,6 +227,14 @@ def step (s : DState) (line : String) : DState × String :=
         if preCycle c.disk then ({ s with boot := none }, "unmodelled") else
         let b := restart c.disk c.mirror s.genesis
         ({ s with boot := b }, bootStr b)
+      | ["forkput", k] =>
+        -- a write of the group FORK database (store prefix "groupFork") seen from the chain's store
+        -- (prefix "group"): the raw key "Fork" ++ k
+        match ofHex? k with
+        | none => (s, "bad-op")
+        | some kb =>
+          let c' := { c with disk := sput c.disk ([0x46, 0x6f, 0x72, 0x6b] ++ kb) (.ref [1]) }
+          ({ s with boot := some (.alive c') }, "ok")
       | "crash" :: k :: rest =>
         match parseNat? k with
         | none => (s, "bad-op")
